@@ -33,6 +33,7 @@ var tableFiles = []string{
 var knownTables = map[string]bool{
 	"tokenHandlerContainer":  true,
 	"midHandlerContainer":    true,
+	"requestMessageIDs":      true, // udp/client/conn.go: token of a confirmable request being written -> its message ID (repair of F42)
 	"c":                      true, // messageCache.c (response cache)
 	"observations":           true,
 	"sendingMessagesCache":   true,
@@ -298,6 +299,28 @@ func scanFuncForTables(file string, f *ast.File, fd *ast.FuncDecl, fset *token.F
 					}
 					return true
 				})
+			}
+			// (e) insertion made conditionally: `if <cond> { …; <table>.<insertOp>(<key>, …); defer <table>.<removeOp>(<key>); … }` where the
+			// `if` is a top-level statement of the function without `else`, the insertion is a statement of its block and the statement
+			// RIGHT AFTER it in that block is the deferred removal (a deferred call runs when the function returns, whichever block
+			// registered it; with nothing between the two there is no path that inserts without registering the removal)
+			if len(in.removal) == 0 {
+				if ifs, ok := st.(*ast.IfStmt); ok && ifs.Else == nil {
+					for k, s2 := range ifs.Body.List {
+						es, ok := s2.(*ast.ExprStmt)
+						if !ok || es.X != ast.Expr(c) || k+1 >= len(ifs.Body.List) {
+							continue
+						}
+						d, ok := ifs.Body.List[k+1].(*ast.DeferStmt)
+						if !ok {
+							continue
+						}
+						dt, dop, ok := tableCall(d.Call)
+						if ok && dt == t && removeOps[dop] && len(d.Call.Args) >= 1 && exprStr(d.Call.Args[0]) == key {
+							in.removal = append(in.removal, "defer")
+						}
+					}
+				}
 			}
 			*ins = append(*ins, in)
 			return true
